@@ -150,3 +150,55 @@ Fixpoint first_reject (k : N) (s : tst) (tr : list ev) (i : N) : option N :=
   | [] => None
   | e :: r => match tstep k s e with Some s' => first_reject k s' r (i + 1) | None => Some i end
   end.
+
+(* ------------------------------------------------------------------ identifiers and coalescing *)
+
+(** request identifiers are never reused: per boundary for translation requests, globally for
+    accesses (the simulator draws them from one generator) *)
+Fixpoint req_keys (tr : list ev) : list (N * N) :=
+  match tr with
+  | [] => []
+  | EReq b id _ _ _ :: r => (b, id) :: req_keys r
+  | _ :: r => req_keys r
+  end.
+Fixpoint acc_ids (tr : list ev) : list N :=
+  match tr with
+  | [] => []
+  | EAcc id _ _ _ :: r => id :: acc_ids r
+  | _ :: r => acc_ids r
+  end.
+Fixpoint nodup_keyb (l : list (N * N)) : bool :=
+  match l with
+  | [] => true
+  | x :: r => negb (existsb (fun y => (fst x =? fst y) && (snd x =? snd y)) r) && nodup_keyb r
+  end.
+Fixpoint nodupNb (l : list N) : bool :=
+  match l with [] => true | x :: r => negb (existsb (N.eqb x) r) && nodupNb r end.
+Definition ids_fresh (tr : list ev) : bool := nodup_keyb (req_keys tr) && nodupNb (acc_ids tr).
+
+(** MSHR coalescing seen from outside: boundaries 1..ntlb are fed by a TLB; such a TLB never has
+    two requests for the same (PID, page) outstanding below it — later lookups of that page wait
+    in its MSHR entry.  [c_out] lists the outstanding (boundary, id, src, pid, page). *)
+Record cout := mk_cout { o_b : N; o_id : N; o_src : N; o_pid : N; o_page : N }.
+Definition cstep (ntlb k : N) (out : list cout) (e : ev) : option (list cout) :=
+  match e with
+  | EReq b id src pid vaddr =>
+      if (1 <=? b) && (b <=? ntlb) then
+        if existsb (fun o => (o_b o =? b) && (o_src o =? src) && (o_pid o =? pid) && (o_page o =? at_vpage k vaddr)) out
+        then None else Some (mk_cout b id src pid (at_vpage k vaddr) :: out)
+      else Some out
+  | ERsp b rspTo _ _ _ _ _ =>
+      Some (filter (fun o => negb ((o_b o =? b) && (o_id o =? rspTo))) out)
+  | _ => Some out
+  end.
+Fixpoint crun (ntlb k : N) (out : list cout) (tr : list ev) : option (list cout) :=
+  match tr with
+  | [] => Some out
+  | e :: r => match cstep ntlb k out e with Some o' => crun ntlb k o' r | None => None end
+  end.
+Definition coalesced (ntlb k : N) (tr : list ev) : bool :=
+  match crun ntlb k [] tr with Some _ => true | None => false end.
+
+(** the complete stack acceptor *)
+Definition accepts_stack (ntlb k : N) (tr : list ev) : bool :=
+  accepts k tr && ids_fresh tr && coalesced ntlb k tr.
